@@ -5,60 +5,7 @@ import ast
 from ..core import AnalysisError, REPO
 from ..rules import kspec
 
-CANON = {"long": "int64_t", "int": "int32_t", "unsigned int": "uint32_t", "signed char": "int8_t", "unsigned char": "uint8_t",
-         "short": "int16_t", "unsigned short": "uint16_t", "unsigned long": "uint64_t", "long long": "int64_t",
-         "unsigned long long": "uint64_t", "_Bool": "bool"}
-
-
-def canon_type(t):
-    t = t.replace("struct ", "").strip()
-    const = "const" in t.split()
-    t2 = " ".join(w for w in t.replace("*", " * ").split() if w != "const")
-    base = t2.replace("*", "").strip()
-    stars = t2.count("*")
-    base = CANON.get(base, base)
-    return ("const " if const else "") + base + (" " + "*" * stars if stars else "")
-
-
-def helpers_of(fb, f):
-    tu = [t for t in fb.kernel_tus().values() if t["path"] == f["file"]][0]
-    return {g["name"]: (tuple(p[0] for p in g["params"]), g["body"]) for g in tu["funcs"] if not g["inst"] and g["name"] != f["name"]}
-
-
-def spec_nf(k):
-    ir = k["ir"]
-    pp, pb = ir["functions"][ir["main"]]
-    ph = {n: v for n, v in ir["functions"].items() if n != ir["main"]}
-    return pp, kspec.normal_form(pp, pb, ph)
-
-
-def implementation_of(fb, k):
-    """the C++ function that implements spec kernel k: the template named like the kernel, else (no template) the
-    single specialisation itself"""
-    f = fb.kernel_pattern(k["name"])
-    if f is not None:
-        return f
-    # kernels whose template has another name: follow the first specialisation's forwarding call
-    for sp in k["specializations"]:
-        w = fb.kernel_pattern(sp["name"])
-        if w is None:
-            continue
-        tgt = forwarding_target(w)
-        if tgt is not None:
-            g = fb.kernel_pattern(tgt[0])
-            if g is not None:
-                return g
-        return w
-    return None
-
-
-def forwarding_target(w):
-    """if w's body is `return G<...>(args)` -> (G, targs, args) else None"""
-    b = w["body"]
-    if len(b) == 1 and b[0][0] == "return" and b[0][1] and b[0][1][0] == "call" and b[0][1][1][0] == "fn":
-        fn = b[0][1][1]
-        return fn[1], (fn[2] if len(fn) > 2 else ()), b[0][1][2]
-    return None
+from ..rules.kernels import canon_type, helpers_of, spec_nf, implementation_of, forwarding_target, rule_kspec, rule_wrappers
 
 
 def run(rep, fb, tier):
@@ -76,106 +23,21 @@ def run(rep, fb, tier):
         "read/write extents relative to length arguments are decided at the call sites (C12), not here",
     ]
 
-    # ---- A: normal-form equality, kernel vs definition
-    rA = rep.rule("KSPEC.equal", "C++ kernel body and Python definition lower to the same normal form", floor=150)
-    undefined = []
-    programs = 0
-    for k in spec:
-        if k["placeholder"]:
-            undefined.append(k["name"])
-            continue
-        ir = k["ir"]
-        key = k["name"]
-        if ir is None or "error" in ir:
-            rA.fail(key, "kernel-specification.yml:" + key, "the Python definition cannot be parsed: %s" % (ir or {}).get("error"))
-            continue
-        if ir["unknown"]:
-            rA.fail(key, "kernel-specification.yml:" + key, "definition uses constructs outside the kernel subset: %s" % ir["unknown"])
-            continue
-        f = implementation_of(fb, k)
-        if f is None:
-            rA.fail(key, "src/cpu-kernels", "no C++ function implements specified kernel %s" % key)
-            continue
-        programs += 1
-        cp = tuple(p[0] for p in f["params"])
-        a = kspec.normal_form(cp, f["body"], helpers_of(fb, f))
-        pp, b = spec_nf(k)
-        where = "%s:%d" % (f["file"], f["line"])
-        if len(cp) != len(pp):
-            rA.fail(key, where, "parameter count differs: C++ %d %s vs definition %d %s" % (len(cp), cp, len(pp), pp))
-            continue
-        rA.check(a == b, key, where, "kernel differs from its definition at %s" % kspec.first_diff(a, b),
-                 detail="normal forms identical (%d statements at top level)" % len(a),
-                 extra={"cxx": kspec.unparse(a)[:2000], "spec": kspec.unparse(b)[:2000]})
-        if tier == "thorough":
-            for g in kf.get(f["name"], []):
-                if not g["inst"] or g["file"] != f["file"]:
-                    continue
-                programs += 1
-                ai = kspec.normal_form(tuple(p[0] for p in g["params"]), g["body"], helpers_of(fb, f))
-                rA.check(ai == b, key + "<" + ",".join(g["ftargs"] or ()) + ">", where,
-                         "instantiation %s differs from the definition at %s" % (g["ftargs"], kspec.first_diff(ai, b)))
-    rA.count("kernels_with_definition", programs)
-    rA.count("kernels_without_definition", len(undefined))
-    rA.done()
-
-    # ---- B.1: every specialisation exists and forwards its own parameters positionally to the kernel's template
-    rB = rep.rule("KSIB.wrapper", "each specialisation forwards its own parameters, in order, to the kernel's one template (all widths share one algorithm)", floor=600)
-    rS = rep.rule("KSIG.definition", "parameter names and C types of each specialisation's definition equal the args in kernel-specification.yml (so the extern \"C\" symbol the library calls is this function)", floor=600)
+    rA, programs, undefined = rule_kspec(rep, fb, tier, None, floor=150)
+    specnames = rule_wrappers(rep, fb, None, floor=600)
+    from ..spec import spec_ctype
     rC = rep.rule("KSIG.const", "a pointer argument declared Const[...] is dir: in and an argument with dir: out is not const (the compiler then enforces that declared-const inputs are not written by the kernel)", floor=600)
-    specnames = set()
     for k in spec:
-        impl = implementation_of(fb, k)
-        targets = set()
         for sp in k["specializations"]:
-            specnames.add(sp["name"])
-            key = sp["name"]
-            w = fb.kernel_pattern(sp["name"])
-            if w is None:
-                rB.fail(key, "src/cpu-kernels", "specialisation %s has no C++ definition" % key)
-                continue
-            where = "%s:%d" % (w["file"], w["line"])
-            # signature
-            want = [(a["name"], canon_type(__import__("vf.spec", fromlist=["x"]).spec_ctype(a["type"]))) for a in sp["args"]]
-            got = [(n, canon_type(t)) for n, t in w["params"]]
-            rS.check(want == got, key, where, "definition parameters %s differ from specification args %s" % (got, want),
-                     detail="%d parameters agree in name and type" % len(got))
             for a in sp["args"]:
-                isptr = "List[" in a["type"]
-                if not isptr:
+                if "List[" not in a["type"]:
                     continue
                 isconst = a["type"].startswith("Const[")
-                d = a.get("dir")
-                rC.check((not isconst) or d == "in", key + ":" + a["name"], where,
-                         "argument %s has dir=%s but type %s" % (a["name"], d, a["type"]))
-            # forwarding
-            if impl is not None and impl["name"] == w["name"]:
-                rB.ok(key, "is itself the implementation (no template)")
-                continue
-            ft = forwarding_target(w)
-            if ft is None:
-                # a specialisation with its own body: compare it directly with the definition when there is one
-                if not k["placeholder"] and k["ir"] and "error" not in k["ir"]:
-                    a = kspec.normal_form(tuple(p[0] for p in w["params"]), w["body"], helpers_of(fb, w))
-                    pp, b = spec_nf(k)
-                    rB.check(a == b, key, where, "specialisation has its own body, which differs from the definition at %s" % kspec.first_diff(a, b))
-                else:
-                    rB.excepted(key, "own body, kernel has no definition: not comparable")
-                continue
-            tgt, targs, args = ft
-            targets.add(tgt)
-            pnames = tuple(("var", p[0]) for p in w["params"])
-            okfwd = tuple(args) == pnames
-            rB.check(okfwd, key, where, "wrapper does not forward its parameters positionally: passes %s for parameters %s" % (
-                [kspec.unparse(kspec.cexpr(a)) for a in args], [p[0] for p in w["params"]]),
-                detail="forwards %d parameters in order to %s<%s>" % (len(args), tgt, ",".join(targs)))
-        if len(targets) > 1:
-            rB.fail(k["name"] + ":one-template", "src/cpu-kernels", "specialisations of %s forward to different templates %s" % (k["name"], sorted(targets)))
-        elif targets and impl is not None and impl["name"] not in targets:
-            rB.fail(k["name"] + ":impl", "src/cpu-kernels", "specialisations forward to %s but the kernel is implemented by %s" % (sorted(targets), impl["name"]))
-    rB.done()
-    rS.done()
+                rC.check((not isconst) or a.get("dir") == "in", sp["name"] + ":" + a["name"], "kernel-specification.yml:" + sp["name"],
+                         "argument %s has dir=%s but type %s" % (a["name"], a.get("dir"), a["type"]))
     rC.done()
+    from ..rules.callsites import rule_dispatch
+    rule_dispatch(rep, fb)
 
     # ---- exhaustiveness: every extern kernel symbol defined in src/cpu-kernels/awkward_*.cpp is specified
     rE = rep.rule("KSIG.exhaustive", "every non-template awkward_* function defined under src/cpu-kernels is a specialisation listed in the specification", floor=600)
